@@ -97,7 +97,46 @@ def _has_none(d):
     return any(isinstance(v, tuple) and v[0] == "None" for v in d.values())
 
 
+def judge_stream(frames, label, pbf):
+    """A SETPOLL reader over the frames interleaved with NMEA / RTCM3 frames must resolve each UBX frame
+    exactly as the static SETPOLL parse does (which the clause above ties to the true mode)."""
+    import io
+    from mc import streams
+    n1, r1 = streams.TOKENS["N1"][2], streams.TOKENS["R1"][2]
+    out = []
+    for order in (frames, frames[::-1]):
+        data = b"".join((n1 if i % 2 == 0 else r1) + f for i, f in enumerate(order)) + n1
+        want = []
+        for f in order:
+            try:
+                want.append(UBXReader.parse(f, msgmode=SETPOLL, parsebitfield=pbf))
+            except Exception:  # noqa: BLE001
+                pass
+        got = []
+        try:
+            rd = UBXReader(io.BytesIO(data), msgmode=SETPOLL, parsebitfield=pbf, quitonerror=0)
+            for raw, parsed in rd:
+                if isinstance(parsed, UBXMessage):
+                    got.append(parsed)
+                if len(got) > len(order) + 2:
+                    break
+        except Exception as e:  # noqa: BLE001
+            out.append((f"setpoll_reader_raises|{label}|{type(e).__name__}", str(e)))
+            continue
+        sg = [(m.msgmode, m.identity, attrs(m)) for m in got]
+        sw = [(m.msgmode, m.identity, attrs(m)) for m in want]
+        if sg != sw:
+            i = 0
+            while i < len(sg) and i < len(sw) and sg[i] == sw[i]:
+                i += 1
+            why = "missing" if i >= len(sg) else ("wrong_mode" if i < len(sw) and sg[i][0] != sw[i][0] else "differs")
+            out.append((f"setpoll_reader_differs_from_static_parse|{label}|{why}", f"pbf={pbf} item {i}: frames={[f.hex()[:40] for f in order]}"))
+    return out
+
+
 def replay_case(case):
+    if case.get("stream"):
+        return judge_stream([bytes.fromhex(f) for f in case["stream"]], case["entry"], case["pbf"])
     return judge(bytes.fromhex(case["frame"]), case["mode"], case["entry"], "both")[1]
 
 
@@ -108,7 +147,9 @@ def eval_block(block, acc):
         if e.mode == GET or not e.routed or C.invalid_types(e.pdict):
             continue
         n = 0
+        picked = {}
         for route, frame in frames_for(e, acc):
+            picked.setdefault(min(len(frame) - 8, 3), frame)
             st, out = judge(frame, e.mode, e.label, "both")
             acc.evaluations += 1
             acc.transitions += 2
@@ -116,6 +157,15 @@ def eval_block(block, acc):
             n += 1
             for key, detail in out:
                 acc.violation(key, {"frame": frame.hex(), "mode": e.mode, "entry": e.label, "route": route}, detail)
+        if picked:
+            fs = [picked[k] for k in sorted(picked)]
+            for pbf in (1, 0):
+                out = judge_stream(fs, e.label, pbf)
+                acc.evaluations += 2
+                acc.transitions += 4 * len(fs) + 2
+                acc.outcomes[(e.mode, "stream", "viol" if out else "ok")] += 1
+                for key, detail in out:
+                    acc.violation(key, {"stream": [f.hex() for f in fs], "entry": e.label, "pbf": pbf}, detail)
         acc.states.add(e.label)
         if n and len(acc.samples) < 1:
             acc.sample({"entry": e.label, "frames": n, "last": frame.hex()[:60]})
@@ -133,7 +183,7 @@ def run_tier(tier, t0):
             "payload route, the keyword route and (for empty payloads) the no-keyword route; each frame parsed with its true mode and with SETPOLL, in both bitfield views. Same enumeration in both tiers. "
             "distinct_nontrivial = (mode, route, verdict) classes"
         ),
-        assumptions=["conformance of a payload is decided by the reference layout, not by the parser"],
+        assumptions=["conformance of a payload is decided by the reference layout, not by the parser", "stream ring: for every definition, its frames of payload length 0, 1, 2 and >= 3 (first generated of each class) interleaved with NMEA and RTCM3 frames, both orders, read by a SETPOLL reader in both bitfield views: each delivered UBX message must equal the static SETPOLL parse"],
         vacuity=[(f"all {nsp} SET/POLL definitions generated at least one frame", len(acc.states) == nsp)],
         exhaustive=True,
         extra_cov={"definitions": len(acc.states)},
